@@ -862,6 +862,13 @@ class Exec:
                     self.safety(st, 'KeyError', 'del ' + ast.unparse(t), st.sel2('dom', a, k.t))
                     st.set_field('dom', z3.Store(dom, a, z3.Store(st.sel('dom', a), k.t, False)))
                     continue
+                if o.ty.kind == 'list' and not isinstance(t.slice, ast.Slice):
+                    a = S.addr(o.t)
+                    seq = st.sel('list', a)
+                    i = self.index_term(k, seq, st, 'del ' + ast.unparse(t))
+                    new = z3.Concat(z3.Extract(seq, 0, i), z3.Extract(seq, i + 1, z3.Length(seq) - i - 1))
+                    st.set_field('list', z3.Store(st.field('list'), a, new))
+                    continue
             raise Unsupported('del ' + ast.unparse(t))
         return [Outcome('normal', st)]
 
